@@ -10,7 +10,7 @@ package iso7816
 // authenticated cryptogram.
 //
 // shape digits: 1 = DO87, 2 = DO85, 3 = DO99 (2 bytes), 4 = DO8E, 5 = unknown DO (tag 0x80),
-// 6 = DO99 with 1 byte, 7 = DO99 with 3 bytes; e.g. 134 = 87 99 8E.
+// 6 = DO99 with 1 byte, 7 = DO99 with 3 bytes, 8 = empty DO8E, 9 = 4-byte DO8E; e.g. 134 = 87 99 8E.
 func verifH_C03_constructive() {
 	alg, shape := verifParam("alg"), verifParam("shape")
 	sm, ref := verifNewSM(alg)
@@ -26,7 +26,7 @@ func verifH_C03_constructive() {
 	var crypt85, crypt87 []byte
 	var ind85, ind87 byte
 	var val99 []byte
-	macPos := -1
+	macPos, macLen := -1, 0
 	delta := verifBytes(8)
 	// the chip-side counter for this response (the AES IV depends on it)
 	ref.inc()
@@ -63,11 +63,18 @@ func verifH_C03_constructive() {
 				first99, val99 = do, v
 			}
 			body = append(body, do...)
-		case 4:
+		case 4, 8, 9:
+			ml := 8
+			if k == 8 {
+				ml = 0
+			} else if k == 9 {
+				ml = 4
+			}
 			if macPos < 0 {
 				macPos = len(body) + 2
+				macLen = ml
 			}
-			body = append(body, verifDO(0x8E, make([]byte, 8))...)
+			body = append(body, verifDO(0x8E, make([]byte, ml))...)
 		case 5:
 			body = append(body, verifDO(0x80, verifBytes(2))...)
 		}
@@ -78,7 +85,7 @@ func verifH_C03_constructive() {
 	msg = append(msg, first99...)
 	genuine := ref.mac(verifPad(msg, bs))
 	if macPos >= 0 {
-		for i := 0; i < 8; i++ {
+		for i := 0; i < macLen; i++ {
 			body[macPos+i] = genuine[i] ^ delta[i]
 		}
 	}
@@ -101,6 +108,7 @@ func verifH_C03_constructive() {
 		}
 	}
 	verifAssert(macPos >= 0, "accepted only with a MAC object")
+	verifAssert(macLen == 8, "accepted only with a complete 8-byte MAC")
 	verifAssert(zero, "accepted only if the MAC equals the MAC over counter+1 and the protected objects")
 	verifAssert(first99 != nil && len(val99) == 2, "accepted only with a two-byte protected status")
 	if first99 != nil && len(val99) == 2 {
@@ -140,4 +148,31 @@ func verifH_C03_unprotected() {
 	if n <= 2 {
 		verifAssert(err != nil && r == nil, "unprotected response is an error")
 	}
+}
+
+// verifH_C03_naked_replay: an attacker on the link withholds the genuine protected response to
+// command 1, answers command 1 with a bare status word, and presents the withheld response as the
+// answer to command 2. The property demands an error. (Recorded known finding: Decode decrements
+// the counter on a bare status word, so the counter expected for exchange 2 is the one the chip
+// used for exchange 1.)
+func verifH_C03_naked_replay() {
+	sm, ref := verifNewSM(verifParam("alg"))
+	ins := verifByte()
+	out1, err := sm.Encode(NewCApdu(0, ins, verifByte(), verifByte(), nil, verifInt(1, 256)))
+	if err != nil {
+		return
+	}
+	_, _, _, ok := ref.unwrapCommand(out1.Encode())
+	verifAssume(ok)
+	resp1 := ref.wrapResponse(verifBytes(verifParam("nr")), uint16(verifInt(0, 0xffff)), ins)
+	bare := []byte{verifByte(), verifByte()}
+	_, errBare := sm.Decode(bare)
+	verifAssert(errBare != nil, "a bare status word is an error")
+	_, err = sm.Encode(NewCApdu(0, verifByte(), verifByte(), verifByte(), nil, verifInt(1, 256)))
+	if err != nil {
+		return
+	}
+	verifReach("second-command")
+	r, err2 := sm.Decode(resp1)
+	verifAssert(err2 != nil && r == nil, "the response to an earlier command is rejected as the answer to a later command")
 }
